@@ -7,6 +7,7 @@
     Only property theorems live here; helper lemmas are in `Fca/Lemmas`.
 -/
 import Fca.Lemmas.Miners
+import Fca.Lemmas.OracleFast
 namespace Fca.C02
 open Fca Fca.Spec
 
@@ -120,6 +121,14 @@ theorem concept_views_agree (K : Ctx) :
     (∀ algo o cs, fromContext K algo o = .ok cs → ∀ c ∈ cs, ViewsAgree K.objNames K.attrNames c) :=
   ⟨MinersL.views_cboFbarray K, MinersL.views_cboObjectwise K, MinersL.views_closeByOne K,
    MinersL.views_lindig K, MinersL.views_sofia K, MinersL.views_fromContext K⟩
+
+/-- the oracle the driver uses to judge the implementation's lists (`Spec.allConceptsFast`: brute force over the
+    smaller side of the table, through the transposed table when it is wider than tall) lists exactly the
+    formal concepts of the table, each once — the same set as `Concepts`. -/
+theorem oracle_fast_exact (t : Table) (hwf : t.WF) :
+    (allConceptsFast t).Nodup ∧ ∀ A B, (A, B) ∈ allConceptsFast t ↔ (A, B) ∈ Concepts t :=
+  ⟨allConceptsFast_nodup t, fun A B => by
+    rw [mem_allConceptsFast t hwf]; exact (mem_allConcepts t).symm⟩
 
 /-! ### non-vacuity: the hypotheses are met by a concrete, non-trivial context -/
 
